@@ -1,4 +1,228 @@
-use crate::world::World;
-use crate::Cx;
+//! Family 9: SD-JWT strings, disclosures, SdObjectDecoder, KB-JWT claims/options JSON, MethodDigest::unpack.
+//! (SD-JWT-VC entry points are not compiled into this crate — feature `sd-jwt-vc` off — and are skipped.)
+use crate::fam_valid::{assemble, disclosure, kb_jwt, sd_claims};
+use crate::gen;
+use crate::world::{sign_compact, SigMod, World, ISSUER_DID};
+use crate::{Cx, In};
+use identity_core::convert::{FromJson, ToJson};
+use identity_credential::sd_jwt_payload::{Disclosure, KeyBindingJwtClaims, SdJwt, SdObjectDecoder};
+use identity_credential::validator::KeyBindingJWTValidationOptions;
+use identity_storage::key_id_storage::MethodDigest;
+use serde_json::{json, Value};
+use vh::b64::url_encode;
 use vh::Rng;
-pub fn run(_cx: &mut Cx, _w: &World, _rng: &mut Rng, _budget: u64) {}
+
+fn feed_sd(cx: &mut Cx, s: &str) {
+  let i = In::S(s);
+  if let Some(sd) = cx.ent("SdJwt::parse", i, || SdJwt::parse(s)) {
+    cx.acc("SdJwt.sweep", i, || (sd.presentation().len(), sd.to_string().len(), sd.disclosures.len(), sd.key_binding_jwt.as_ref().map(|k| k.len()), sd.clone() == sd, format!("{:?}", sd).len()));
+    cx.acc("SdJwt.reparse", i, || SdJwt::parse(&sd.presentation()).map(|b| b == sd).ok());
+    let ds: Vec<String> = sd.disclosures.iter().take(8).cloned().collect();
+    for d in ds {
+      feed_disclosure(cx, &d);
+    }
+  }
+}
+
+fn feed_disclosure(cx: &mut Cx, d: &str) {
+  let i = In::S(d);
+  if let Some(x) = cx.ent("Disclosure::parse", i, || Disclosure::parse(d.to_string())) {
+    cx.acc("Disclosure.sweep", i, || (x.as_str().len(), x.to_string().len(), x.salt.len(), x.claim_name.as_ref().map(|n| n.len()), x.claim_value.to_string().len(), x.clone() == x, format!("{:?}", x).len(), x.clone().into_string().len()));
+  }
+}
+
+fn feed_decode(cx: &mut Cx, dec: &SdObjectDecoder, obj: &Value, ds: &[String]) {
+  let Some(o) = obj.as_object() else { return };
+  let text = format!("{} ~ {}", obj, ds.join("~"));
+  let text = gen::cap_str(text);
+  let i = In::S(&text);
+  let dv: Vec<String> = ds.to_vec();
+  if let Some(m) = cx.ent("SdObjectDecoder::decode", i, || dec.decode(o, &dv)) {
+    cx.acc("SdObjectDecoder.decoded", i, || Value::Object(m.clone()).to_string().len());
+  }
+  cx.ent("SdObjectDecoder::determine_hasher", i, || dec.determine_hasher(o).map(|h| h.alg_name().len()));
+}
+
+fn feed_json(cx: &mut Cx, j: &str) {
+  let i = In::S(j);
+  if let Some(c) = cx.ent("KeyBindingJwtClaims::from_json", i, || serde_json::from_str::<KeyBindingJwtClaims>(j)) {
+    cx.acc("KeyBindingJwtClaims.sweep", i, || (c.iat, c.aud.len(), c.nonce.len(), c.sd_hash.len(), c.properties.len(), serde_json::to_string(&c).is_ok(), c.clone() == c, format!("{:?}", c).len()));
+  }
+  cx.ent("KeyBindingJWTValidationOptions::from_json", i, || KeyBindingJWTValidationOptions::from_json(j).map(|o| (o.to_json().is_ok(), format!("{:?}", o).len())));
+}
+
+fn feed_digest(cx: &mut Cx, b: &[u8]) {
+  if let Some(d) = cx.ent("MethodDigest::unpack", In::B(b), || MethodDigest::unpack(b.to_vec())) {
+    cx.acc("MethodDigest.sweep", In::B(b), || (d.pack() == b, format!("{:?}", d).len(), d.clone() == d, crate::hash_of(&d)));
+  }
+}
+
+pub fn run(cx: &mut Cx, w: &World, rng: &mut Rng, budget: u64) {
+  cx.set("sdjwt", "directed");
+  let dec = SdObjectDecoder::new_with_sha256();
+  let dec_none = SdObjectDecoder::new();
+  let sd = sd_claims(w);
+  let h = World::header("EdDSA", &format!("{}#ed", ISSUER_DID), "");
+  let jwt = sign_compact(&w.ed, &h, sd.claims.to_string().as_bytes(), SigMod::Good);
+  let kb = kb_jwt(w, "ed", &jwt, &sd.disclosures, KeyBindingJwtClaims::KB_JWT_HEADER_TYP, None, SigMod::Good);
+  let full = assemble(&jwt, &sd.disclosures, Some(&kb));
+  let mut k = 0u64;
+  let directed: Vec<String> = vec![
+    full.clone(), assemble(&jwt, &sd.disclosures, None), assemble(&jwt, &[], None), assemble(&jwt, &[], Some(&kb)), jwt.clone(), String::new(), "~".into(), "~~".into(), "~~~".into(), "a".into(), "a~".into(),
+    "~a".into(), "a~b".into(), "a~b~".into(), "a~~b".into(), "é~é~é".into(), format!("{}~", "~".repeat(60_000)), format!("{}x", "~".repeat(60_000)), format!("{}\n", full), format!(" {}", full), "a~\u{0}~".into(),
+  ];
+  for s in &directed {
+    k += 1;
+    if cx.args.mine(k) {
+      feed_sd(cx, s);
+    }
+  }
+  // disclosures
+  let mut discs: Vec<String> = sd.disclosures.clone();
+  for t in ["[]", "[1]", "[1,2]", "[\"s\",1]", "[\"s\",\"n\",1]", "[\"s\",1,1]", "[1,\"n\",1]", "[\"s\",\"n\",1,2]", "{}", "null", "\"x\"", "[\"s\",\"_sd\",[\"x\"]]", "[\"s\",\"...\",1]", "[\"s\",{\"_sd\":[\"x\"]}]", "", "[\"s\",\"n\"", "\u{feff}[\"s\",1]"] {
+    discs.push(url_encode(t.as_bytes()));
+    discs.push(t.to_string());
+  }
+  discs.push(url_encode(gen::deep_json(100, 0).as_bytes()));
+  discs.push(url_encode(format!("[\"s\",\"n\",{}]", gen::deep_json(98, 1)).as_bytes()));
+  discs.push(format!("{}=", sd.disclosures[0]));
+  discs.push(vh::b64::std_encode_pad(b"[\"s\",\"n\",\"\xc3\xa9??>>\"]"));
+  for d in &discs {
+    k += 1;
+    if cx.args.mine(k) {
+      feed_disclosure(cx, d);
+    }
+  }
+  // decoder on objects
+  let subj = sd.claims["vc"]["credentialSubject"].clone();
+  let (dx, hx) = disclosure("s", Some("a"), &json!({"_sd": ["SELF"]}));
+  let (dy, hy) = disclosure("s", None, &json!([{"...": "x"}, [[{"...": "y"}]]]));
+  let mut objs: Vec<(Value, Vec<String>)> = vec![
+    (sd.claims.clone(), sd.disclosures.clone()),
+    (sd.claims.clone(), vec![]),
+    (sd.claims.clone(), sd.disclosures.iter().rev().cloned().collect()),
+    (subj.clone(), sd.disclosures.clone()),
+    (json!({}), vec![]),
+    (json!({"_sd": []}), vec![]),
+    (json!({"_sd": [hx.clone()]}), vec![dx.clone()]),
+    (json!({"_sd": [hx.clone(), hx.clone()]}), vec![dx.clone()]),
+    (json!({"_sd": [hx.clone()], "a": 1}), vec![dx.clone()]),
+    (json!({"a": {"_sd": [hx.clone()]}, "b": {"_sd": [hx.clone()]}}), vec![dx.clone()]),
+    (json!({"arr": [{"...": hy.clone()}]}), vec![dy.clone()]),
+    (json!({"arr": [{"...": hy.clone(), "x": 1}]}), vec![dy.clone()]),
+    (json!({"arr": [{"...": hx.clone()}]}), vec![dx.clone()]),
+    (json!({"_sd": [hy.clone()]}), vec![dy.clone()]),
+    (json!({"_sd": "x"}), vec![]),
+    (json!({"_sd": [1]}), vec![]),
+    (json!({"arr": [{"...": 1}]}), vec![]),
+    (json!({"_sd_alg": "sha-256", "_sd": [hx.clone()]}), vec![dx.clone(), dx.clone()]),
+    (json!({"_sd_alg": "sha-384"}), vec![]),
+    (json!({"_sd_alg": 1}), vec![]),
+    (json!({"_sd_alg": null}), vec![]),
+    (json!({"a": 1}), vec!["!!".to_string()]),
+    (json!({"a": 1}), vec![url_encode(b"[]")]),
+  ];
+  // a chain of nested disclosures: each conceals the next
+  {
+    let mut ds = Vec::new();
+    let (mut d, mut hh) = disclosure("s0", Some("leaf"), &json!(1));
+    ds.push(d);
+    for n in 1..300 {
+      let (d2, h2) = disclosure(&format!("s{}", n), Some("n"), &json!({"_sd": [hh]}));
+      d = d2;
+      hh = h2;
+      ds.push(d.clone());
+    }
+    objs.push((json!({"_sd": [hh]}), ds));
+  }
+  if let Ok(v) = serde_json::from_str::<Value>(&gen::deep_json(100, 1)) {
+    objs.push((v, vec![]));
+  }
+  for (o, ds) in &objs {
+    k += 1;
+    if cx.args.mine(k) {
+      feed_decode(cx, &dec, o, ds);
+      feed_decode(cx, &dec_none, o, ds);
+    }
+  }
+  // KB-JWT claims / options JSON
+  let kb_claims = json!({"iat": 1_700_000_000i64, "aud": "a", "nonce": "n", "sd_hash": "h"});
+  let mut jsons: Vec<String> = vec![kb_claims.to_string(), "{}".into(), "[]".into(), "null".into(), r#"{"iat":"1","aud":"a","nonce":"n","sd_hash":"h"}"#.into(), r#"{"iat":1e30,"aud":"a","nonce":"n","sd_hash":"h"}"#.into(),
+    r#"{"iat":1,"aud":"a","nonce":"n","sd_hash":"h","iat":2}"#.into(), r#"{"iat":1,"aud":"a","nonce":"n","sd_hash":"h","x":{"y":[1,2]}}"#.into(), r#"{"jwsOptions":{}}"#.into(), r#"{"jwsOptions":{"methodId":" did:a:b#c"}}"#.into(),
+    r#"{"jwsOptions":{"methodId":"did:a:%41"}}"#.into(), r#"{"jwsOptions":{},"earliestIssuanceDate":"9999-12-31T23:59:59-01:00"}"#.into(), r#"{"jwsOptions":{},"latestIssuanceDate":"0000-01-01T00:00:00+01:00"}"#.into()];
+  for n in gen::NUM_TOKENS {
+    jsons.push(format!(r#"{{"iat":{},"aud":"a","nonce":"n","sd_hash":"h"}}"#, n));
+  }
+  for j in &jsons {
+    k += 1;
+    if cx.args.mine(k) {
+      feed_json(cx, j);
+    }
+  }
+  // MethodDigest::unpack: every length 0..=12 x leading byte grid
+  for len in 0..=12usize {
+    for first in [0u8, 1, 2, 0x7f, 0x80, 0xff] {
+      k += 1;
+      if cx.args.mine(k) {
+        let mut b = vec![0xabu8; len];
+        if len > 0 {
+          b[0] = first;
+        }
+        feed_digest(cx, &b);
+      }
+    }
+  }
+
+  // ---- mutation
+  cx.gen("mutation");
+  for _ in 0..budget {
+    match rng.below(8) {
+      0..=2 => {
+        let seed = if rng.chance(1, 5) { &directed[rng.usize(directed.len().min(12))] } else { &full };
+        let t = gen::pick_s(rng, &["~", "~~", ".", "~.", "a~b", ""]);
+        let s = gen::mutate_str(rng, seed, t);
+        feed_sd(cx, &s);
+      }
+      3 => {
+        let seed = &discs[rng.usize(discs.len())];
+        let d = if rng.bool() {
+          let raw = vh::b64::url_decode(seed).unwrap_or_else(|| seed.as_bytes().to_vec());
+          url_encode(&gen::mutate_bytes(rng, &raw, b"[\"s\",\"n\",{\"_sd\":[]}]"))
+        } else {
+          gen::mutate_str(rng, seed, "")
+        };
+        feed_disclosure(cx, &d);
+      }
+      4 | 5 => {
+        let (o, ds) = &objs[rng.usize(objs.len().min(22))];
+        let o2 = if rng.chance(2, 3) { gen::mutate_json(rng, o) } else { o.clone() };
+        let mut ds2 = ds.clone();
+        if rng.bool() && !ds2.is_empty() {
+          let i = rng.usize(ds2.len());
+          let raw = vh::b64::url_decode(&ds2[i]).unwrap_or_default();
+          ds2[i] = url_encode(&gen::mutate_bytes(rng, &raw, b"[\"s\",\"_sd\",1]"));
+        }
+        if rng.chance(1, 4) {
+          let val = gen::hostile_scalar(rng);
+          ds2.push(disclosure("z", Some(gen::pick_s(rng, gen::KEY_TOKENS)), &val).0);
+        }
+        feed_decode(cx, if rng.chance(9, 10) { &dec } else { &dec_none }, &o2, &ds2);
+      }
+      6 => {
+        let seed = &jsons[rng.usize(jsons.len())];
+        let v = serde_json::from_str::<Value>(seed).ok();
+        let t = gen::any_token(rng);
+        let j = gen::mutate_json_text(rng, seed, v.as_ref(), t);
+        feed_json(cx, &j);
+      }
+      _ => {
+        let n = rng.usize(14);
+        let mut b = rng.bytes(n);
+        if n > 0 && rng.chance(2, 3) {
+          b[0] = 0;
+        }
+        feed_digest(cx, &b);
+      }
+    }
+  }
+}
